@@ -64,6 +64,9 @@ CHECKS = {
     "C16": C("c16", dict(checks=400, shards=4, timeout=900), dict(checks=6000, shards=16, timeout=6000),
              "property-based testing (rapid): generated pairs of layers with overlapping and disjoint IDs; oracle: map union with upper precedence for lookup, locations, enumeration and ordered searches",
              "Trusted: the union-with-precedence model, restricted to the queries the property lists. Upper layers are valid worlds on their own (paths bring copies of their points)."),
+    "C27": C("c27", dict(checks=300, shards=4, timeout=900), dict(checks=4000, shards=16, timeout=6000),
+             "property-based testing (rapid): round trip of generated element sequences through the PBF writer and reader, for 1-4 reader cores",
+             "Trusted: the element model in harness/c27. Ways have at least one node. With several cores only per-goroutine order is defined (blocks are decoded concurrently)."),
     "C31": C("c31", dict(checks=4000, shards=2, timeout=300), dict(checks=40000, shards=16, timeout=3000),
              "property-based testing (rapid): round trips of generated feature IDs through every encoding, and order laws on generated triples with a differential against the compact index order",
              "Trusted: encoders/decoders of encoding/json, gopkg.in/yaml.v2 and protobuf. IDs in the postcode and ONS alias namespaces are restricted to values the packers produce (other values have no alias form). Namespaces exclude control characters."),
